@@ -19,6 +19,7 @@ type JSONOpts struct {
 	Prefix      bool // RFC 7951 section 4 member-name prefixes and module:identity values
 	IdentPrefix bool // prefix identityref values only
 	AllAlts     bool // emit every alternative path of a compressed field (key leaves: config/x and x)
+	EmptyArrays bool // render leaf-lists marked EmptyLL as [] (a document that mentions the leaf-list with no members)
 }
 
 // ---- rendering (independent of ygot) -----------------------------------------------------------------
@@ -135,7 +136,7 @@ func renderNode(n *Node, o JSONOpts) map[string]interface{} {
 			val = jsonValue(v, o)
 		case FLeafList:
 			l := n.LL[f.Name]
-			if len(l) == 0 {
+			if len(l) == 0 && !(o.EmptyArrays && n.EmptyLL[f.Name]) {
 				continue
 			}
 			arr := make([]interface{}, len(l))
